@@ -70,6 +70,17 @@ def evaluate(ids):
         json.dump(meta, open(os.path.join(d, 'meta.json'), 'w'), indent=1)
         rows.append((i, prop, caught, results, meta.get('summary', ''), meta.get('needs', '')))
         print(i, prop, 'CAUGHT' if caught else 'missed', {k: (v['exit'] if isinstance(v, dict) else v) for k, v in results.items()})
+    # rows of changes evaluated in earlier runs are kept
+    done = {r[0] for r in rows}
+    for i in sorted(d for d in os.listdir(base) if os.path.isdir(os.path.join(base, d)) and d not in done):
+        try:
+            meta = json.load(open(os.path.join(base, i, 'meta.json')))
+            e = meta.get('evaluation')
+            if e:
+                rows.append((i, meta['property'], e['caught_by_quick'], e['results'], meta.get('summary', ''), meta.get('needs', '')))
+        except Exception:
+            pass
+    rows.sort()
     with open(os.path.join(base, 'RESULTS.md'), 'w') as f:
         f.write('# Seeded changes: which quick checks catch them\n\n| id | property | caught | checks (exit, first violation line) | change | needs |\n|---|---|---|---|---|---|\n')
         for i, prop, caught, results, summ, needs in rows:
